@@ -22,11 +22,18 @@ def fn_queries(tier, prop):
             d = {'L': L, 'CHAR': ch}
             def Q(entry, stubs):
                 qs.append(Query('%s/%s/%s/L%d' % (prop, entry, ch, L), 'C07_json_fn.cpp', entry, d, bounds=b, stubs=stubs, cflags=['-Dprotected=public'], timeout=900,
-                                replay=('C05_lift.cpp', {'h_top_fn': 'lift_top', 'h_value_fn': 'lift_value', 'h_array_fn': 'lift_array', 'h_object_fn': 'lift_object'}[entry])))
+                                replay=('C05_lift.cpp', {'h_top_fn': 'lift_top_fn', 'h_value_fn': 'lift_value_fn', 'h_array_fn': 'lift_array_fn', 'h_object_fn': 'lift_object_fn'}[entry])))
             Q('h_top_fn', {nm['parseValue']: 'fn_parseValue'})
             Q('h_value_fn', {nm['parseObject']: 'fn_container', nm['parseArray']: 'fn_container', nm['UnEscape']: 'fn_unescape', nm['stringToNumber']: 'fn_strtonum'})
             Q('h_array_fn', {nm['parseValue']: 'fn_parseValue'})
             Q('h_object_fn', {nm['parseValue']: 'fn_parseValue', nm['UnEscape']: 'fn_unescape'})
+            if ch == 'char' and L in ((3,) if tier == 'quick' else (3, 4, 5)):
+                # steering twins: same harness restricted to "failed with the cursor left on a closer/comma" - vacuous (witness unreachable)
+                # on a correct tree, and on a broken one they yield counterexamples that lift to an accepted malformed document
+                for entry, stubs in (('h_array_fn', {nm['parseValue']: 'fn_parseValue'}), ('h_object_fn', {nm['parseValue']: 'fn_parseValue', nm['UnEscape']: 'fn_unescape'})):
+                    d2 = dict(d); d2['STEER'] = 1
+                    qs.append(Query('%s/%s/%s/L%d/steer' % (prop, entry, ch, L), 'C07_json_fn.cpp', entry, d2, bounds=b, stubs=stubs, cflags=['-Dprotected=public'], timeout=900,
+                                    replay=('C05_lift.cpp', {'h_array_fn': 'lift_array_fn', 'h_object_fn': 'lift_object_fn'}[entry]), vacuous_ok=True))
     return qs
 def queries(tier):
     return fn_queries(tier, 'fn')
